@@ -3,6 +3,9 @@ use crate::engine::{Runtime, Stage, Tier};
 
 pub mod common;
 pub mod c01;
+pub mod c02;
+pub mod c15;
+pub mod c16;
 
 pub struct PropDef {
     pub id: &'static str,
@@ -16,6 +19,9 @@ pub struct PropDef {
 pub fn lookup(id: &str) -> Option<PropDef> {
     Some(match id {
         "C01" => c01::def(),
+        "C02" => c02::def(),
+        "C15" => c15::def(),
+        "C16" => c16::def(),
         _ => return None,
     })
 }
